@@ -82,6 +82,17 @@
 (* both dictionaries at once (fix 65b1608, finding C20-qread-nonatomic);    *)
 (* negative control NonAtomicQread (self.db bound before the second load):  *)
 (* MC_Debtags_qread.cfg -> Inverse violated.                                *)
+(* Failing inserts (hardening after seed C20-K, notes/SIZE_STRESS.md part   *)
+(* 5): insert(pkg, tags) with a tag source supplied by the caller (an       *)
+(* iterator / generator / iterable backed by I/O) that RAISES after handing *)
+(* over the first k tags is an ordinary step of a history: an exception     *)
+(* comes out and the object stays what it was (today: tags.copy() fails     *)
+(* before anything is touched); a package entered consistently with a       *)
+(* prefix of the tags is tolerated like a line prefix of a failed read.     *)
+(* InsertFails(p, seq, k) transcribes it; negative control NonAtomicInsert  *)
+(* (the tag index is updated while the caller's iterable is still being     *)
+(* consumed, db[pkg] is bound afterwards): MC_Debtags_insfail.cfg -> TLC    *)
+(* reports Inverse violated (Read, InsertFails with k >= 1).                *)
 (*                                                                         *)
 (* Re-reading: read() / qread() on an object that derivations were taken   *)
 (* from replaces its content; derivations taken afterwards are derivations *)
@@ -105,7 +116,7 @@
 (* MC_Debtags_lts.cfg (same + EDGE/STATE emission), _lts_small (2 packages *)
 (* x 3 tags, the LTS replayed by the quick tier), _big (4 packages),       *)
 (* _src (2 packages x 3 tags with the retained source, SrcSteps = 2),      *)
-(* _dev, _shallow, _nonatomic, _qread, _rview, _alias, _view (negative      *)
+(* _dev, _shallow, _nonatomic, _qread, _rview, _alias, _view, _insfail (neg. *)
 (* controls).  WatchParts = TRUE (MC_Debtags_src.cfg, thorough tier) also   *)
 (* retains the sources of the set-sharing restrictions; the quick            *)
 (* configuration retains copies and the originals of views (27 592 states). *)
@@ -237,6 +248,20 @@ IInsert(st, p, S, dev) ==
                 IF t \in S THEN (IF t \in DOMAIN st.rdb THEN st.rdb[t] \cup {p}
                                  ELSE IF dev THEN Chars(p) ELSE {p})
                 ELSE st.rdb[t]]]
+\* insert(pkg, source) where the caller's tag source hands over seq[1..k] and then RAISES: tags.copy()
+\* (or building the new tag set) fails before either dictionary is touched -- the object is unchanged.
+\* nonatomic (negative control NonAtomicInsert): rdb is updated tag by tag while the source is still
+\* being consumed, db[pkg] is only bound after the loop (never reached)
+NonAtomicInsert == FALSE          \* a cfg may override it (MC_Debtags_insfail.cfg: NonAtomicInsert <- MC_True)
+MC_True == TRUE
+IInsertFails(st, p, seq, k, nonatomic) ==
+   IF nonatomic THEN [db |-> st.db, rdb |-> IInsert(st, p, ToSet(SubSeq(seq, 1, k)), FALSE).rdb] ELSE st
+\* what a failed insert may leave behind: the old collection, or the package entered consistently with a
+\* prefix of the tags that were handed over (dev: with today's set((pkg)) for a new tag)
+IInsertFailsAllowed(st, p, seq, k, dev) ==
+   {st} \cup {IInsert(st, p, ToSet(SubSeq(seq, 1, j)), FALSE) : j \in 0..k}
+        \cup (IF dev THEN {IInsert(st, p, ToSet(SubSeq(seq, 1, j)), TRUE) : j \in 0..k} ELSE {})
+AInsertFailsAllowed(a, p, seq, k) == {a} \cup {AInsert(a, p, ToSet(SubSeq(seq, 1, j))) : j \in 0..k}
 IReverse(st)     == [db |-> st.rdb, rdb |-> st.db]
 ICopy(st)        == [db |-> [k \in DOMAIN st.db |-> st.db[k]], rdb |-> [t \in DOMAIN st.rdb |-> st.rdb[t]]]
 \* dump() / output(db) printed and read() again: the tag index is rebuilt from the package index;
@@ -515,6 +540,17 @@ QReadFails(lines, stage) ==
       /\ SetImpl(st2)
       /\ (IF st2 = Impl THEN KeepSrc(src, al, st2) ELSE KeepDerived([db |-> NoAlias(st2).db, rdb |-> al.rdb], st2))
       /\ SameObject("mutate")
+\* insert(p, source) whose source raises after handing over seq[1..k] (k = Len(seq): at the very end)
+InsertFails(p, seq, k) ==
+   LET st2     == IInsertFails(Impl, p, seq, k, NonAtomicInsert)
+       allowed == AInsertFailsAllowed(Abs, p, seq, k)
+   IN /\ p \notin P
+      /\ SetAbs(AfterFailure(st2, allowed))
+      /\ (Emit => PrintT(<<"EDGE", ToJson([from |-> Abs, op |-> "insert_fails", a |-> p, s |-> ToSet(seq), lines |-> <<>>,
+                                            seq |-> seq, k |-> k, allowed |-> allowed, to |-> AbsNext])>>))
+      /\ SetImpl(st2)
+      /\ (IF st2 = Impl THEN KeepSrc(src, al, st2) ELSE Release(st2))
+      /\ SameObject("mutate")
 FacetCollection   == /\ AFacetDomain(Abs)
                      /\ SetAbs(AFacet(Abs))
                      /\ Edge("facet", <<>>, {}, <<>>)
@@ -551,6 +587,8 @@ ReReadTag == CHOOSE t \in FT : TRUE
 \* the two-line input of the failing reads: "k: t" and "k2: t2" (other package, other tag)
 FailLines == <<[pkgs |-> ReReadKeys, tags |-> {ReReadTag}],
                [pkgs |-> {CHOOSE p \in PK \ ReReadKeys : TRUE}, tags |-> {CHOOSE t \in FT \ {ReReadTag} : TRUE}]>>
+\* the tag source of the failing inserts: every name usable as a tag here (known and new ones), fixed order
+FailTags == SetToSeq(ValPool)
 Next == \/ \E K \in SUBSET PK : \E c \in [K -> SUBSET FT] :
               \/ Pristine /\ \E d \in ReadDrops : Read(LinesOf(c), d)
               \/ ~Pristine /\ K = ReReadKeys /\ (\A k \in K : c[k] = {ReReadTag}) /\ Read(LinesOf(c), {})
@@ -561,6 +599,7 @@ Next == \/ \E K \in SUBSET PK : \E c \in [K -> SUBSET FT] :
         \/ FacetCollection
         \/ \E k \in 0..Len(FailLines) : ReadFails(FailLines, {}, k)
         \/ \E stage \in {0, 1} : QReadFails(FailLines, stage)
+        \/ KeyPool \ P # {} /\ \E k \in 0..Len(FailTags) : InsertFails(CHOOSE p \in KeyPool \ P : TRUE, FailTags, k)
 
 Spec == Init /\ [][Next]_vars
 
